@@ -14,6 +14,7 @@ Does NOT decide: port actually free, file actually gone, EOF actually observed, 
 from ..sym import show, walk_expr
 from ..common import short, trait_impls, coroutine_of
 from .. import pathq
+from . import names
 from . import fq
 from . import acc
 
@@ -178,7 +179,7 @@ def run(ctx, f, rep):
     # named in that table's type - whatever it and its module are called)
     sub = []
     for p_, a in f.adts.items():
-        if p_.split("::")[-1] == "PubSocketBackend" and a["kind"] == "Struct":
+        if p_.split("::")[-1] == names.of(f, "PubSocketBackend") and a["kind"] == "Struct":
             for fl in a["variants"][0]["fields"]:
                 if "scc::HashMap<" in fl["ty"]:
                     sub = [a2 for p2, a2 in f.adts.items() if a2["kind"] == "Struct" and (p2.split("::", 1)[-1] in fl["ty"] or p2 in fl["ty"]) and
